@@ -113,6 +113,7 @@ let rec build_cmd (items : Sx.t list) : UsageModel.hcmd =
     | "x-template" -> c := { !c with hc_template = Some (bs (hd l)) }
     | "x-next-line" -> gset (fun s -> { s with hs_next_line = true })
     | "x-order" -> c := { !c with hc_disp_ord = Some (n (hd l)) }
+    | "x-flatten-help" -> c := { !c with hc_flatten = true }
     | x -> failwith ("help area: unsupported cmd item " ^ x)) (Stdlib.List.tl items);
   cmd_with_items !c !args !subs
 
@@ -182,6 +183,27 @@ let render_any (c : UsageModel.hcmd) (use_long : bool) width =
   | Some (Some ps) -> show_template ps
   | Some None -> (match HelpModel.render_help dw c use_long width with Some s -> show_screen s | None -> "PANIC")
 
+(* ---- round 5: flatten_help.  A case whose tree has `(x-flatten-help)` somewhere goes through HelpFlatten; the usage
+   block is printed as the exact text ("Usage: " + the lines joined by "\n       "), every section with the first word
+   of its about (`none` for the sections of write_all_args) ---- *)
+let rec has_flatten (c : UsageModel.hcmd) =
+  c.UsageModel.hc_flatten || Stdlib.List.exists has_flatten c.UsageModel.hc_subs
+
+let s_usage_colon = bs_of_ints [85; 115; 97; 103; 101; 58; 32]
+let show_usage_text (lines : BinNums.coq_N list list list) =
+  "(usagetext " ^ hex (s_usage_colon @ HelpFlatten.usage_text lines) ^ ")"
+
+let show_fscreen (s : HelpFlatten.fscreen) =
+  let open HelpFlatten in
+  let word a = match split_sp a with t :: _ -> hex t | [] -> "none" in
+  let about = match s.fsc_about with Some a -> word a | None -> "none" in
+  let rows rs = String.concat "" (Stdlib.List.map (fun r -> " " ^ show_row r) rs) in
+  let secs = Stdlib.List.map (fun sec ->
+    " (sec " ^ hex sec.HelpModel.s_title ^ " none" ^ rows sec.HelpModel.s_rows ^ ")") s.fsc_sections in
+  let fsecs = Stdlib.List.map (fun f ->
+    " (sec " ^ hex f.fs_title ^ " " ^ word f.fs_about ^ rows f.fs_rows ^ ")") s.fsc_flat in
+  Printf.sprintf "ok (about %s) %s%s%s" about (show_usage_text s.fsc_usage) (String.concat "" secs) (String.concat "" fsecs)
+
 let has_help_arg (c : UsageModel.hcmd) =
   Stdlib.List.exists (fun a -> a.UsageModel.ha_id = UsageModel.s_help) c.UsageModel.hc_args
 
@@ -190,7 +212,13 @@ let run_help (a : Sx.t list) : string =
   | [cmd; w; which] ->
     let c = build_cmd (Sx.args cmd) in
     let width = n (hd (Sx.args w)) in
+    let flat = has_flatten c in
+    let render_any c ul width =
+      if flat then (match HelpFlatten.render_help_flat dw c ul width with Some s -> show_fscreen s | None -> "PANIC")
+      else render_any c ul width in
     (match hd (Sx.args which) with
+     | Sx.Sym "usage" when flat ->
+       (match HelpFlatten.render_usage_flat c with Some u -> "ok " ^ show_usage_text u | None -> "PANIC")
      | Sx.Sym "short" -> render_any c false width
      | Sx.Sym "long" -> render_any c true width
      | Sx.Sym "usage" -> (match HelpModel.render_usage c with Some u -> "ok " ^ show_usage u | None -> "PANIC")
@@ -210,6 +238,12 @@ let run_help (a : Sx.t list) : string =
         | Some false -> "err"
         | Some true ->
           let use_long = kind <> "flag-h" in
+          if flat then
+            (match HelpFlatten.help_at_flat dw c path use_long width with
+             | Some (Some s) -> show_fscreen s
+             | Some None -> "err"
+             | None -> "PANIC")
+          else
           (match HelpModel.help_at dw c path use_long width with
            | Some (Some s) -> show_screen s
            | Some None -> "err"
